@@ -174,4 +174,35 @@ example : ((child (updateFrom liveT newT false).live "value" (.str "x")).bind
     (fun x => child x "qualifier" (.str "q"))).map (fun q => (q.hdr.uid, q.hdr.plain)) = some (4, [("_value", pv "3")]) := by decide
 example : (updateFrom liveT newT false).det.map (fun d => (d.hdr.uid, d.hdr.parent)) = [(6, none)] := by decide
 
+/-! ### Ordered lists are refreshed in the copy's order
+
+The children of a `SubmodelElementList` are filed under generated names (`generated_submodel_list_hack_<uuid1>`), fresh for
+every list object; a freshly read copy therefore never shares a name with the live list, `update_nss_from` matches nothing,
+removes every live item and adopts the copy's items one after the other. -/
+
+/-- **Order of a refreshed list** (any number of items, any nesting inside the items): if no object of the copy's set has a
+    namesake in the live set - which is what fresh generated names give - and the call does not raise, the live set afterwards
+    holds exactly the copy's objects, in the copy's order.  (The hypothesis is the freshness of the generated names: with names
+    drawn from a per-list counter the seeded changes C12-r6-3 / C14-r5-2 made live and copied items match by accident, and the
+    refreshed list came out in the wrong order.) -/
+theorem c12_list_refreshed_in_copy_order (puid : Uid) (lsh osh : SetHdr) (sib : List Key) (litems oitems : Items)
+    (hfresh : ∀ p ∈ oitems, p.2.hdr.kind ≠ Kind.other ∧ AList.get p.2.hdr.key litems = none)
+    (hattr : lsh.keyAttr = osh.keyAttr)
+    (hkeys : ∀ k ∈ AList.keys litems, k ∉ AList.keys oitems)
+    (he : (updateNss puid lsh osh sib litems oitems).err = none) :
+    (updateNss puid lsh osh sib litems oitems).items.map (fun p => p.2.hdr.uid) = oitems.map (fun p => p.2.hdr.uid) :=
+  updateNss_disjoint_order puid lsh osh sib litems oitems hfresh hattr hkeys he
+
+/-- a list item as the model sees it -/
+def listItem (u : Uid) (parent : Uid) : Node := .mk ⟨u, "Property", .referable, some parent, .gen u, []⟩ []
+
+-- a live list [2, 3] refreshed from a copy [13, 12, 14]: no error, and the copy's objects in the copy's order
+example : (updateNss 1 ⟨"value", "id_short", true⟩ ⟨"value", "id_short", true⟩ []
+      [(.gen 2, listItem 2 1), (.gen 3, listItem 3 1)]
+      [(.gen 13, listItem 13 10), (.gen 12, listItem 12 10), (.gen 14, listItem 14 10)]).err = none ∧
+    (updateNss 1 ⟨"value", "id_short", true⟩ ⟨"value", "id_short", true⟩ []
+      [(.gen 2, listItem 2 1), (.gen 3, listItem 3 1)]
+      [(.gen 13, listItem 13 10), (.gen 12, listItem 12 10), (.gen 14, listItem 14 10)]).items.map (fun p => p.2.hdr.uid)
+      = [13, 12, 14] := by decide
+
 end Basyx.Update
